@@ -276,15 +276,29 @@ def run_search_algo(pid, name, algo_name, directed, maxn, weights=(1,), variant=
     cmd = vf.tlc_cmd("SearchAlgo.tla", cfg, os.path.join(d, "md"), workers=workers, heap=heap)
     t0 = time.time()
     log = os.path.join(d, "tlc.log")
+    timed_out = False
     with open(log, "wb") as f:
         try:
             subprocess.run(cmd, cwd=vf.SPEC, stdout=f, stderr=subprocess.STDOUT, timeout=timeout, env=_env())
         except subprocess.TimeoutExpired:
-            raise vf.Infra("TLC timed out on SearchAlgo " + name)
+            timed_out = True
     with open(log, errors="replace") as f:
-        p = vf.parse_tlc_output(f.read())
+        text = f.read()
+    p = vf.parse_tlc_output(text)
     shutil.rmtree(os.path.join(d, "md"), ignore_errors=True)
-    return {"cases": "SearchAlgo:" + name, "tlc": p, "tlc_log": log, "wall_s": round(time.time() - t0, 1), "ah": None}
+    if timed_out and not p["violation"]:
+        # the breadth-first search was cut by the time limit without having found a violation: what
+        # was explored counts as explored (the numbers of the last progress line), not as exhaustive
+        import re
+        m = None
+        for m in re.finditer(r"Progress\(\d+\).*?: ([\d,]+) states generated.*?, ([\d,]+) distinct states found", text):
+            pass
+        if m:
+            p["generated"], p["distinct"] = int(m.group(1).replace(",", "")), int(m.group(2).replace(",", ""))
+        p["ok"], p["incomplete"] = True, True
+        vf.log("[tlc] SearchAlgo %s cut after %ds at %d distinct states (no violation so far)" % (name, timeout, p["distinct"]))
+    return {"cases": "SearchAlgo:" + name, "tlc": p, "tlc_log": log, "wall_s": round(time.time() - t0, 1), "ah": None,
+            "incomplete": timed_out}
 
 
 def validate_io_records(pid, name, records_path, timeout=3600):
